@@ -135,11 +135,19 @@ type Helper func(args []interface{}) (interface{}, error)
 type scope struct {
 	vars  map[string]interface{}
 	outer *scope
+	// stale: names let-bound in an EARLIER iteration of the loop this scope
+	// belongs to. Whether such a binding is still visible in the next
+	// iteration is not fixed by the statements, so reading one is Unspecified.
+	stale map[string]bool
+	hit   *bool // set when a stale name was read
 }
 
 func (s *scope) lookup(n string) (interface{}, bool) {
 	for c := s; c != nil; c = c.outer {
 		if v, ok := c.vars[n]; ok {
+			if c.stale[n] && c.hit != nil {
+				*c.hit = true
+			}
 			if v == nil {
 				return nil, false // a nil binding is an unset name (C10)
 			}
@@ -263,6 +271,7 @@ func (in *Interp) nodes(ns []Node, sb *strings.Builder, inLoop, inFn bool) (ctl,
 		case ContentFor:
 			// emits nothing; the block is remembered in the current scope
 			in.sc.vars["contentFor:"+t.Name] = &stored{body: t.Body, def: in.sc}
+			delete(in.sc.stale, "contentFor:"+t.Name)
 		case EmitContentOf:
 			v, ok := in.sc.lookup("contentFor:" + t.Name)
 			if !ok {
@@ -324,6 +333,7 @@ func (in *Interp) stmt(s Stmt, inLoop, inFn bool) (ctl, interface{}, error) {
 			return ctlNone, nil, err
 		}
 		in.sc.vars[t.Name] = v
+		delete(in.sc.stale, t.Name)
 		return ctlNone, nil, nil
 	case AssignS:
 		v, err := in.eval(t.X)
@@ -417,17 +427,29 @@ type Iterator interface{ Next() interface{} }
 func (in *Interp) runFor(f *For, sb *strings.Builder, inFn bool) error {
 	// the loop is a scope: loop variables and lets inside vanish afterwards
 	outer := in.sc
-	in.sc = &scope{vars: map[string]interface{}{}, outer: outer}
-	defer func() { in.sc = outer }()
+	staleHit := false
+	in.sc = &scope{vars: map[string]interface{}{}, outer: outer, stale: map[string]bool{}, hit: &staleHit}
+	defer func() {
+		in.sc = outer
+		if staleHit {
+			in.unspecified("a name let-bound in an earlier iteration of the same loop was read")
+		}
+	}()
 	it, err := in.eval(f.Iter)
 	if err != nil {
 		return err
 	}
+	loopScope := in.sc
 	iter := func(k, v interface{}) (bool, error) {
+		for n := range loopScope.vars {
+			loopScope.stale[n] = true // whatever earlier iterations bound
+		}
 		if f.Key != "" {
 			in.sc.vars[f.Key] = k
+			delete(loopScope.stale, f.Key)
 		}
 		in.sc.vars[f.Val] = v
+		delete(loopScope.stale, f.Val)
 		c, _, err := in.nodes(f.Body, sb, true, inFn)
 		if err != nil {
 			return false, err
